@@ -134,7 +134,7 @@ theorem roundtrip_hypotheses_satisfiable :
       read E₀ txt = .ok (fieldNames [fA, fB, fC], expectedTable E₀ [fA, fB, fC] exData) :=
   read_save E₀ floatSpec_E₀ ',' "-".toList [fA, fB, fC] exData 2 exSchema_valid exHeaderOK (by decide)
     (by intro c hc; simp only [exData, List.mem_cons, List.not_mem_nil, or_false] at hc
-        rcases hc with rfl | rfl | rfl <;> rfl) exCols
+        rcases hc with rfl | rfl | rfl <;> rfl) exCols (by intro h; exact absurd h (by decide))
 
 /-! ## negation witnesses: the extra hypotheses are needed (faithful model, concrete inputs)
 
@@ -172,9 +172,13 @@ example : roundTrip ⟨some [','], some "-".toList, some [fStr "class" "z"]⟩ [
 example : roundTrip ⟨some [','], some "-".toList, some [fStr "a" "z", fStr "a" "z"]⟩ [[sv "x"], [sv "y"]]
     = .error .value := by decide
 
-/-- `HeaderOK.delim` (blank): the empty middle cell is swallowed by `skipinitialspace` -/
+/-- blank delimiter with an empty written field (`Representable`): the empty middle cell is swallowed by
+`skipinitialspace` (with non-empty cells the blank delimiter round-trips, and the theorem covers it) -/
 example : roundTrip ⟨some [' '], some "-".toList, some [fStr "a" "z", fStr "b" "z", fStr "c" "z"]⟩
     [[sv "x"], [sv ""], [sv "y"]] = .error .scsv := by decide
+
+example : roundTrip ⟨some [' '], some "-".toList, some [fStr "a" "z", fStr "b" "z", fStr "c" "z"]⟩
+    [[sv "x"], [sv "u v"], [sv "z"]] = .ok (["a".toList, "b".toList, "c".toList], [[sv "x"], [sv "u v"], [sv "z"]]) := by decide
 
 /-- `HeaderOK.delimYaml`: a CSV-legal delimiter that YAML cannot carry (`ReaderError`) -/
 example : roundTrip ⟨some [Char.ofNat 1], some "-".toList, some [fStr "a" "z", fInt "b" "0"]⟩
